@@ -56,11 +56,17 @@ def _identity_inst(t, callee):
         params(isf, names)
     want = names + [n for n in own if n not in names]
     got = []
+    ncl = 0
     for a in g:
+        if a.get("k") == "closure":
+            ncl += 1      # a closure handed to a `F: Fn..` parameter of the helper: its calls are resolved after inlining
+            continue
         if a.get("k") != "param":
             return False
         got.append(a["name"])
     # lifetimes are erased; an impl may declare parameters in another order than its self type mentions them
+    if ncl:
+        return len(got) + ncl == len(want) and all(x in want for x in got) and ncl <= len(own)
     return sorted(got) == sorted(want)
 
 
